@@ -460,7 +460,7 @@ pub fn run(ctx: &Ctx) {
     ctx.regress(&HostileMeta);
     ctx.regress(&RawMetadata);
     ctx.regress(&CueText);
-    ctx.regress(&PictureSniff { name: "picture-random" });
+    ctx.regress_named(&PictureSniff { name: "picture-random" }, &["picture-byte-sweep"]);
     let n = match (t, checked) {
         (Tier::Quick, false) => 200_000,
         (Tier::Quick, true) => 150_000,
